@@ -62,6 +62,14 @@ def main():
                 mism.append(dict(thread=t, job=jobs[idx], serial=str(expected[idx])[:300], concurrent=str(got)[:300]))
                 if len(mism) >= 3:
                     break
+    # after the race: every ring size up to the largest one requested, so that an entry of a lazily grown table that
+    # was corrupted during the race is seen whichever index it sits at
+    scan = []
+    for n in range(1, int(q.get("scan_rings", 0)) + 1):
+        try:
+            scan.append(sf.encoder("C1" + "C" * (n + 1) + "1"))
+        except Exception as e:  # noqa
+            scan.append("exc:" + type(e).__name__)
     # what every (thread, job) returned, deduplicated, for comparison with a serial run in another process
     distinct = {}
     for t in range(T):
@@ -70,7 +78,7 @@ def main():
             if got not in distinct[idx]:
                 distinct[idx].append(got)
     json.dump(dict(file=sf.__file__, mismatches=mism, calls=sum(len(r) for r in results), alive=sum(t.is_alive() for t in ths),
-                   serial_after=expected, concurrent_distinct={str(k): v for k, v in distinct.items()}), sys.stdout)
+                   ring_scan=scan, serial_after=expected, concurrent_distinct={str(k): v for k, v in distinct.items()}), sys.stdout)
 
 
 if __name__ == "__main__":
